@@ -1,19 +1,20 @@
 (* Proofs about Model/JoinLife.v: a join execution starts at most once, and only with >= k routed inbound tasks,
-   for every sequence of triggers / refreshes / completions - provided a completed join is not re-armed. *)
+   for every sequence of triggers / refreshes / completions / failures - provided a join that has RUN is not
+   re-armed (re-arming one that failed without starting is harmless). *)
 From Coq Require Import List Arith Bool Lia.
 Require Import Mistral.Model.JoinLife.
 Import ListNotations.
 
 Definition life_inv (k : nat) (l : jlife) : Prop :=
-  (starts l = 0 -> js l = JAbsent \/ js l = JWaiting) /\
+  (starts l = 0 -> js l = JAbsent \/ js l = JWaiting \/ js l = JFailed) /\
   (starts l <= 1) /\
   (starts l = 1 -> (js l = JRunning \/ js l = JDone) /\ k <= routed_n l).
 
-Lemma life_inv_step : forall k l e, life_inv k l -> life_inv k (life_step false k l e).
+Lemma life_inv_step : forall ru k l e, life_inv k l -> life_inv k (life_step false ru k l e).
 Proof.
-  intros k l e [H0 [H1 H2]]. destruct l as [s r n]. simpl in *. destruct e; simpl.
+  intros ru k l e [H0 [H1 H2]]. destruct l as [s r n]. simpl in *. destruct e; simpl.
   - unfold life_inv; simpl. split; [|split].
-    + intros Hn. destruct (H0 Hn) as [Hs | Hs]; subst; simpl; auto.
+    + intros Hn. destruct (H0 Hn) as [Hs | [Hs | Hs]]; subst; simpl; auto. destruct ru; auto.
     + exact H1.
     + intros Hn. destruct (H2 Hn) as [[Hs | Hs] Hk]; subst; simpl; split; auto.
   - destruct s; try (unfold life_inv; simpl; auto).
@@ -23,48 +24,55 @@ Proof.
     subst n. split; [discriminate|]. split; [lia|]. intros _. auto.
   - destruct s; try (unfold life_inv; simpl; auto).
     unfold life_inv; simpl. split; [|split].
-    + intros Hn. destruct (H0 Hn) as [Hs | Hs]; discriminate.
+    + intros Hn. destruct (H0 Hn) as [Hs | [Hs | Hs]]; discriminate.
     + exact H1.
     + intros Hn. destruct (H2 Hn) as [_ Hk]. auto.
+  - destruct s; try (unfold life_inv; simpl; auto).
+    unfold life_inv; simpl. split; [|split].
+    + auto.
+    + exact H1.
+    + intros Hn. destruct (H2 Hn) as [[Hs | Hs] _]; discriminate.
 Qed.
 
-Lemma life_inv_run : forall k evs, life_inv k (life_run false k evs).
+Lemma life_inv_run : forall ru k evs, life_inv k (life_run false ru k evs).
 Proof.
-  intros k evs. unfold life_run.
+  intros ru k evs. unfold life_run.
   assert (H0 : life_inv k life0) by (unfold life_inv, life0; simpl; repeat split; auto; try lia; discriminate).
   revert H0. generalize life0. induction evs as [|e tl IH]; intros l Hl; simpl; [exact Hl|].
   apply IH. apply life_inv_step. exact Hl.
 Qed.
 
-(* at most one start, whatever happens, when completed joins are not re-armed *)
-Theorem life_once : forall k evs, starts (life_run false k evs) <= 1.
-Proof. intros k evs. destruct (life_inv_run k evs) as [_ [H _]]. exact H. Qed.
+(* at most one start, whatever happens, when joins that have run are not re-armed *)
+Theorem life_once : forall ru k evs, starts (life_run false ru k evs) <= 1.
+Proof. intros ru k evs. destruct (life_inv_run ru k evs) as [_ [H _]]. exact H. Qed.
 
-(* the start happens with the required number of inbound tasks routed (re-arming or not) *)
-Lemma life_start_sound_gen : forall rearm k evs l,
+(* every start happens with the required number of inbound tasks routed (re-arming or not) *)
+Lemma life_start_sound_gen : forall rearm ru k evs l,
   (0 < starts l -> k <= routed_n l) ->
-  0 < starts (fold_left (life_step rearm k) evs l) -> k <= routed_n (fold_left (life_step rearm k) evs l).
+  0 < starts (fold_left (life_step rearm ru k) evs l) -> k <= routed_n (fold_left (life_step rearm ru k) evs l).
 Proof.
-  intros rearm k evs. induction evs as [|e tl IH]; intros l Hl; simpl; [exact Hl|].
+  intros rearm ru k evs. induction evs as [|e tl IH]; intros l Hl; simpl; [exact Hl|].
   apply IH. destruct l as [s r n]. destruct e; simpl in *.
   - intros Hn. specialize (Hl Hn). lia.
   - destruct s; simpl; auto. destruct (Nat.leb_spec k r); simpl; auto.
   - destruct s; simpl; auto.
+  - destruct s; simpl; auto.
 Qed.
 
-Theorem life_start_sound : forall rearm k evs,
-  0 < starts (life_run rearm k evs) -> k <= routed_n (life_run rearm k evs).
+Theorem life_start_sound : forall rearm ru k evs,
+  0 < starts (life_run rearm ru k evs) -> k <= routed_n (life_run rearm ru k evs).
 Proof. intros. apply life_start_sound_gen; [simpl; lia | assumption]. Qed.
 
 (* with re-arming a partial join (k = 1 of 2 inbound tasks) starts twice: the late branch re-triggers it *)
-Theorem life_twice_with_rearm : starts (life_run true 1 [Trigger; Refresh; Complete; Trigger; Refresh]) = 2.
-Proof. vm_compute. reflexivity. Qed.
+Theorem life_twice_with_rearm : forall ru,
+  starts (life_run true ru 1 [Trigger; Refresh; Complete; Trigger; Refresh]) = 2.
+Proof. intros ru. vm_compute. reflexivity. Qed.
 
-(* so: "at most one start for every event sequence and every k" holds exactly when completed joins are not re-armed *)
-Theorem life_once_iff : forall rearm,
-  (forall k evs, starts (life_run rearm k evs) <= 1) <-> rearm = false.
+(* so: "at most one start for every event sequence and every k" holds exactly when joins that have run are not re-armed *)
+Theorem life_once_iff : forall rearm ru,
+  (forall k evs, starts (life_run rearm ru k evs) <= 1) <-> rearm = false.
 Proof.
-  intros rearm. split.
+  intros rearm ru. split.
   - intros H. destruct rearm; [|reflexivity]. specialize (H 1 [Trigger; Refresh; Complete; Trigger; Refresh]).
     rewrite life_twice_with_rearm in H. lia.
   - intros He k evs. subst. apply life_once.
